@@ -244,13 +244,35 @@ func (r0 rec) calc(v int) int {
 		return 2, y
 	}
 	return 3, x + y`),
-		mk("namedmaplen", `	m0 := set{}
+		Base{Name: "F", ID: "namedmaplen", Src: "func F" + sig + ` {
+	m0 := set{}
 	t := 0
-	for i := 0; i < len(s); i++ {
-		m0[s[i]] = true
+	for i := 0; i < b; i++ {
+		m0[i] = true
 		t = len(m0)
 	}
-	return t + len(m0)*10, x`),
+	return t + a, x
+}
+`, Manual: []ManualEdit{{"invalid refactoring: len of a named map type that the loop mutates, hoisted out of the loop", "func F" + sig + ` {
+	m0 := set{}
+	t := 0
+	n := len(m0)
+	for i := 0; i < b; i++ {
+		m0[i] = true
+		t = n
+	}
+	return t + a, x
+}
+`}}},
+		mk("dupcalls", `	c := a * 2
+	sink(c)
+	sink(c)
+	return c, y`),
+		mk("dupbranch", `	if b > 0 {
+		sink(b)
+		sink(b)
+	}
+	return a, x`),
 		mk("minmax", `	c := min(a, b)
 	d := max(a, len(s))
 	t := 0
